@@ -30,6 +30,8 @@ Line protocol of property C20.
   the machine that the harness uses to judge the real writer's bytes (and that `extra/C20.py` compares with tmux).
 * `termf` / `vtermf` – as `term` / `vterm`, the harness calling `WriteForLinef(line, "%s", text)`.
 * `size <rows> <cols>` – `TermRows()` / `TermCols()` after the size has been set: `ok <rows> <cols>`.
+* `init` – the state linetrim.go's `init()` leaves when stdout is not a terminal (the harness' case):
+  `ok <AutoTrim> <TermRows> <TermCols>` = `ok 0 24 80`.
 * `bterm <width> <trim> <history>` – `BufferedTerm` (final `Close()` appended): `ok b=<bytes> rows=<…> row=<…>` or `panic`.
 * `same <width> <trim> <history>` – the live writer and the buffered writer on the same history, both outputs on a
   blank ONLCR screen of `maxLine + 3` rows: `ok same=<0|1> live=<row>,<col>,<vis> buf=<row>,<col>,<vis>` or `panic`
@@ -145,6 +147,9 @@ def handle0 : List String → String
     match w.toInt?, hh.toNat?, r0.toNat?, bit tr, parseHist hs with
     | some width, some H, some row0, some trim, some h => specAnswer width H row0 trim h
     | _, _, _, _, _ => "bad-args"
+  | ["init"] =>
+    let e := initEnv none
+    s!"ok {b01 e.autoTrim} {e.rows} {e.cols}"
   | ["size", r, c] =>
     match r.toInt?, c.toInt? with
     | some rows, some cols => s!"ok {rows} {cols}"
